@@ -130,6 +130,18 @@ pub fn cases(_tier: &str, _seed: u64) -> Vec<Case> {
                     }
                     v.push(c);
                 }
+                // sets of several flags, and the empty set: "has" means every listed flag is up (RFC 1035 4.1.1 bits)
+                let wf = [spec.qr, spec.aa, spec.tc, spec.rd, spec.ra, spec.ad, spec.cd];
+                let picks = [0u32, (w as u32).wrapping_mul(2654435761) >> 7, (w as u32).wrapping_mul(40503) >> 3, 127];
+                for pick in picks {
+                    let mut set = PacketFlag::empty();
+                    let mut all = true;
+                    for (i, f) in flags.iter().enumerate() { if pick >> i & 1 == 1 { set |= *f; if wf[i] != 1 { all = false; } } }
+                    let out = res(header_buffer::has_flags(&b, set), |x| (x as u8).to_string());
+                    let mut c = Case::new(format!("peek has_flags {} {}", h, set.bits()), out.clone()).tag("peek-set");
+                    if out != format!("ok {}", all as u8) { c = c.fail("peek-has-flags", format!("word {:#06x} flag set {:#06x}: {}", w, set.bits(), out)); }
+                    v.push(c);
+                }
                 // oracle for the numeric peeks
                 let mut c = Case::oracle_only().tag("peek-oracle");
                 let ok = header_buffer::id(&b).ok() == Some(*id ^ w)
